@@ -81,9 +81,6 @@ func (w *World) enabledActions(fair bool) []Action {
 			if ca.fired || ca.c.DoneSeq != 0 && ca.c.ReturnSeq != 0 {
 				continue
 			}
-			if ca.c.InvokeSeq == 0 {
-				continue
-			}
 			ca := ca
 			acts = append(acts, Action{Key: "cancel:t" + strconv.Itoa(ca.c.Tok), Kind: "cancel", Weight: ca.weight, run: func(uint64) {
 				ca.fired = true
